@@ -60,7 +60,7 @@ func runC10(c *runCtx) {
 		{"log", `[{"version":1}]`}, {"log", `{"x":{"version":1}}`}, {"log", `"version"`}, {"log", `{}`},
 		{"asset", `{"version":2.0}`}, {"asset", `{"version":"3.0"}`}, {"asset", `[{"version":"2.0"}]`}, {"asset", `{"x":{"version":"2.0"}}`}, {"version", `"2.0"`},
 	}
-	ws := []string{"", " ", "\n  ", "\t"}
+	ws := []string{"", " ", "\n  ", "\t", "\r\n", "\r", " \r\n\t"}
 	render := func(ms []member, lay int) (string, []int) {
 		// returns the text and, per member, the offset just past its value
 		var sb strings.Builder
@@ -108,7 +108,7 @@ func runC10(c *runCtx) {
 			ms = append(ms, d1)
 			ms = append([]member{d2}, ms...)
 		}
-		txt, ends := render(ms, r.Intn(4))
+		txt, ends := render(ms, r.Intn(8))
 		x := []byte(txt)
 		kind := "other"
 		if stdjson.Valid(x) && !strings.Contains(txt, "<svg") {
